@@ -42,6 +42,7 @@ type progGen struct {
 	decls   bool // allow declaration forms (C04)
 	haveThunkMaker bool
 	thunks         []string
+	files          map[string]string // simulated-disk files referenced by (source ...)
 	// swarm weights
 	w []int
 }
@@ -399,7 +400,7 @@ func contains(xs []string, s string) bool {
 func (g *progGen) topForm() vmForm {
 	g.eff = false
 	g.locals = nil
-	w := []int{5, 4, 3, 2, 2, 1, 2, 1, 2, 1, 1, 2}
+	w := []int{5, 4, 3, 2, 2, 1, 2, 1, 2, 1, 1, 2, 2}
 	if g.noFail {
 		w[6] = 0
 	}
@@ -540,6 +541,36 @@ func (g *progGen) topForm() vmForm {
 		th := g.thunks[g.r.Intn(len(g.thunks))]
 		text = g.r.Pick([]string{"(%s)", "(+ 1 (%s))", "(let [q (%s)] (+ q q))", "(for [(def i 0) (< i 2) (def i (+ i 1))] (%s))"})
 		text = fmt.Sprintf(text, th)
+	case 12:
+		// source of one or two files from the simulated disk; a failure inside a sourced file is a failure at depth
+		if g.files == nil {
+			g.files = map[string]string{}
+		}
+		nf := g.r.Range(1, 2)
+		var names []string
+		for k := 0; k < nf; k++ {
+			name := fmt.Sprintf("s%d.zy", g.r.Intn(3))
+			var sb strings.Builder
+			for j, m := 0, g.r.Range(1, 3); j < m; j++ {
+				switch g.r.Intn(3) {
+				case 0:
+					sb.WriteString(g.e(1))
+				case 1:
+					sb.WriteString(fmt.Sprintf("(def sv%d %s)", g.r.Intn(2), g.e(1)))
+				case 2:
+					sb.WriteString(g.probe())
+				}
+				sb.WriteString("\n")
+			}
+			g.files[name] = sb.String()
+			names = append(names, fmt.Sprintf("%q", name))
+		}
+		text = fmt.Sprintf("(source %s)", strings.Join(names, " "))
+		if g.r.Chance(0.3) {
+			text = fmt.Sprintf("(+ 1 (let [q 2] %s))", text)
+		}
+		// a sourced def is a global effect in the middle of the form
+		return vmForm{Text: text, Eff: true}
 	}
 	return vmForm{Text: text, Eff: g.eff}
 }
@@ -591,6 +622,11 @@ func (g *progGen) declForm() string {
 
 // genProgram: n top-level forms
 func genProgram(r *kernel.RNG, maxForms int, noFail, decls bool) []vmForm {
+	forms, _ := genProgramFiles(r, maxForms, noFail, decls)
+	return forms
+}
+
+func genProgramFiles(r *kernel.RNG, maxForms int, noFail, decls bool) ([]vmForm, map[string]string) {
 	g := newProgGen(r)
 	g.noFail = noFail
 	g.decls = decls
@@ -599,5 +635,7 @@ func genProgram(r *kernel.RNG, maxForms int, noFail, decls bool) []vmForm {
 	for i := 0; i < n; i++ {
 		forms = append(forms, g.topForm())
 	}
-	return forms
+	// files written later in the program may be re-generated under the same name: the scenario holds the final content,
+	// so only keep (source ...) forms meaningful by making every version available from the start
+	return forms, g.files
 }
